@@ -13,6 +13,7 @@ from spec import values as V
 from spec.cqllex import LexError, lex
 from vlib.harness import EnumPart, hyp_part
 
+THOROUGH_SCALE = 2.0
 PID = "C29"
 TITLE = "Simple-statement parameters are injection-safe and value-preserving"
 LEVEL = "exploration"
